@@ -1317,6 +1317,13 @@ type retInfo struct {
 
 func calleeName(cc *ssa.CallCommon) string {
 	if cc.IsInvoke() {
+		// named after the static interface type of the receiver, so that a method an interface
+		// embeds (hash.Hash's Write, from io.Writer) can carry the embedding interface's contract
+		if n, ok := cc.Value.Type().(*types.Named); ok {
+			if _, isIface := n.Underlying().(*types.Interface); isIface && n.Obj().Pkg() != nil {
+				return fmt.Sprintf("(%s.%s).%s", n.Obj().Pkg().Path(), n.Obj().Name(), cc.Method.Name())
+			}
+		}
 		return cc.Method.FullName()
 	}
 	switch v := cc.Value.(type) {
